@@ -1180,10 +1180,14 @@ class Structure(UniqueMixin, metaclass=StructMeta):
             if key in self.get_all_fields_by_name() and getattr(
                     self, ENABLE_UNDEFINED, False
             ):
+                # an immutable field that is already set refuses every assignment, None included
+                if key in self.__dict__ and getattr(
+                        self.get_all_fields_by_name()[key], IS_IMMUTABLE, False
+                ):
+                    raise ValueError(f"{key}: Field is immutable")
                 getattr(self, "_none_fields").add(key)
                 # an explicit None replaces whatever the field held: it must not keep reading the old value
-                if not getattr(self.get_all_fields_by_name()[key], IS_IMMUTABLE, False):
-                    self.__dict__.pop(key, None)
+                self.__dict__.pop(key, None)
             return
 
         # an assignment that is rejected - by the field, by a check the field makes after it stored
